@@ -8,6 +8,6 @@ desc=$(/tmp/mutate -file /tmp/mut_pristine/$f -n $n -o $d/$f 2>&1) || { echo "$f
 cd $d
 if ! go build ./... >/dev/null 2>&1; then echo "$f $n | $desc | build-fails"; rm -rf $d; exit; fi
 if ! timeout 180 go test -vet=off -count=1 ./... >/dev/null 2>&1; then echo "$f $n | $desc | killed-by-tests"; rm -rf $d; exit; fi
-fails=$(timeout 600 /verif/bin/govc dump --repo $d --func "$pk" --timeout 8 2>&1 | grep "^FAIL" | awk '{print $2}' | sort -u | head -4 | tr '\n' ' ')
+fails=$(timeout 600 /verif/bin/govc dump --repo $d --func "$pk" --timeout 20 2>&1 | grep "^FAIL" | awk '{print $2}' | sort -u | head -4 | tr '\n' ' ')
 if [ -z "$fails" ]; then echo "$f $n | $desc | SURVIVES"; else echo "$f $n | $desc | caught: $fails"; fi
 rm -rf $d
